@@ -93,6 +93,7 @@ pub struct SimSource {
     cuts: Vec<usize>,
     faults: Vec<Fault>,
     consecutive_intr: u32,
+    intr_burst: Option<(usize, usize)>,
     seam: Seam,
 }
 
@@ -117,15 +118,32 @@ impl SimSource {
             cuts,
             faults: cfg.faults.clone(),
             consecutive_intr: 0,
+            intr_burst: cfg.intr_burst,
             seam,
         }
     }
 
-    fn fault_at(&self, call: usize) -> Option<ErrorKind> {
-        self.faults
-            .iter()
-            .find(|f| f.call == call)
-            .map(|f| kind_from_name(&f.kind))
+    fn fault_at(&self, call: usize) -> Option<(ErrorKind, io::Error)> {
+        self.faults.iter().find(|f| f.call == call).map(|f| {
+            let kind = kind_from_name(&f.kind);
+            let err = if f.payload.is_empty() {
+                io::Error::from(kind)
+            } else if f.payload == "msg" {
+                io::Error::new(kind, "injected fault with a message")
+            } else if let Some(k2) = f.payload.strip_prefix("nested:") {
+                io::Error::new(kind, io::Error::from(kind_from_name(k2)))
+            } else if f.payload == "seqio" {
+                // an error value of seq_io itself as payload
+                if call % 2 == 0 {
+                    io::Error::new(kind, seq_io::fastq::Error::BufferLimit)
+                } else {
+                    io::Error::new(kind, seq_io::fasta::Error::InvalidStart { line: 1, found: b'x' })
+                }
+            } else {
+                io::Error::from(kind)
+            };
+            (kind, err)
+        })
     }
 }
 
@@ -141,11 +159,19 @@ impl Read for SimSource {
             log.op.first_req = Some(buf.len());
         }
         log.op.last_req = Some(buf.len());
-        if let Some(kind) = self.fault_at(call) {
+        if let Some((kind, err)) = self.fault_at(call) {
             log.op.faults.push(format!("{:?}", kind));
             log.total_faults += 1;
             log.ev(3, call as u64, kind as u64);
-            return Err(io::Error::from(kind));
+            return Err(err);
+        }
+        if let Some((at, len)) = self.intr_burst {
+            if call >= at && call < at + len {
+                log.op.interrupts += 1;
+                log.total_interrupts += 1;
+                log.ev(2, call as u64, 1);
+                return Err(io::Error::from(ErrorKind::Interrupted));
+            }
         }
         // scripted decision
         let mut want = usize::MAX;
@@ -211,11 +237,11 @@ impl Seek for SimSource {
         log.calls += 1;
         log.op.seeks += 1;
         log.total_seeks += 1;
-        if let Some(kind) = self.fault_at(call) {
+        if let Some((kind, err)) = self.fault_at(call) {
             log.op.faults.push(format!("{:?}", kind));
             log.total_faults += 1;
             log.ev(5, call as u64, kind as u64);
-            return Err(io::Error::from(kind));
+            return Err(err);
         }
         let new = match pos {
             SeekFrom::Start(p) => p as i128,
@@ -343,6 +369,13 @@ pub fn policy_eval(spec: &PolicySpec, grants: usize, cur: usize) -> Option<usize
         PolicySpec::DoubleLimit(l) => {
             if cur * 2 > *l {
                 None
+            } else {
+                Some(cur * 2)
+            }
+        }
+        PolicySpec::Stall(k) => {
+            if grants < *k {
+                Some(cur)
             } else {
                 Some(cur * 2)
             }
